@@ -20,7 +20,7 @@ def main():
             cm = no_black() if fmt == "noblack" else contextlib.nullcontext()
             try:
                 with cm:
-                    ses = drivers.run_inline({"test_a.py": src}, {"create"}, pyproject=PYPROJECTS[fmt])
+                    ses = drivers.run_inline({"test_a.py": src}, {"create", "fix"}, pyproject=PYPROJECTS[fmt])
                 if not ses.ok():
                     err = ses.exec_error or ses.collect_error or ses.apply_error
                     row.append({"error": f"{type(err).__name__}: {err}"})
